@@ -329,3 +329,159 @@ def corpus_check(run, seed, n, batch=250):
         shutil.rmtree(tmp, ignore_errors=True)
     for i in range(0, len(traces), batch):
         validate_traces(run, traces[i:i + batch], levels="{0, 1, 2, 4, 40, 70, 71}", label="TraceLex(corpus %d-%d)" % (i, i + batch))
+
+
+# ---------------------------------------------------------------- C06: injected faults
+import re as _re
+
+
+def comment_spans(gap, base):
+    """(start, end) char spans (inclusive) of the comments inside a stretch of trivia starting at offset base"""
+    out = []
+    i = 0
+    while i < len(gap):
+        if gap[i] == "#":
+            m = _re.match(r"#\[(=*)\[", gap[i:])
+            if m:
+                close = "]" + m.group(1) + "]"
+                j = gap.find(close, i + len(m.group(0)))
+                end = len(gap) - 1 if j < 0 else j + len(close) - 1
+            else:
+                j = gap.find("\n", i)
+                end = len(gap) - 1 if j < 0 else j
+            out.append((base + i, base + end))
+            i = end + 1
+        else:
+            i += 1
+    return out
+
+
+def fault_context(clean_text, p):
+    """where does insertion offset p (0-based, before character p) fall in the valid file?"""
+    toks, errs = real_lex(clean_text)
+    prev = 0
+    for name, s, e in toks:
+        for cs, ce in comment_spans(clean_text[prev:s], prev):
+            if cs < p <= ce:
+                return "comment"
+        if s < p <= e:
+            if _re.match(r"^\[(=*)\[", clean_text[s:e + 1]) and name in ("Unquoted_argument", "Bracket_argument"):
+                return "bracket"      # a bracket argument without special characters ties with Unquoted_argument
+            return {"Bracket_argument": "bracket", "Quoted_argument": "quoted", "Unquoted_argument": "unquoted",
+                    "Identifier": "identifier", "Docstring": "comment", "Module_docstring": "comment"}.get(name, "token")
+        prev = e + 1
+    for cs, ce in comment_spans(clean_text[prev:], prev):
+        if cs < p <= ce:
+            return "comment"
+    return "between"
+
+
+def c06_one(beh, seed, sandbox):
+    import naming
+    syms = beh["text"]
+    fp, ft = beh["fault"]["pos"], beh["fault"]["t"]
+    text, offs = concretize(syms, seed)
+    # the fault's concrete text and the valid file it was injected into
+    fstart = offs[fp - 1]
+    fend = offs[fp - 1 + len(ft)]
+    ftext = text[fstart:fend]
+    clean = text[:fstart] + text[fend:]
+    ctx = fault_context(clean, fstart)
+    if ctx in ("comment", "bracket"):
+        return {"verdict": "out", "why": "fault inside a comment or bracket argument"}
+    if ftext == "\\" and text[fend:fend + 1] in ("\n", "\r") and ctx != "quoted":
+        # backslash-newline outside a quoted argument: an escape_identity by the manual's regular expression
+        # ('\\' followed by anything but [A-Za-z0-9;]), rejected by the cmake binary; not one of C06's fault classes
+        return {"verdict": "out", "why": "backslash before a line ending: manual and binary disagree"}
+    os.makedirs(sandbox, exist_ok=True)
+    ok, cm_err = cmake_accepts(text, sandbox, "f")
+    invalid_escape = False
+    if ftext.startswith("\\") and len(ftext) == 2 and ftext[1].isalnum() and ftext[1] not in "tnr":
+        invalid_escape = not (fstart > 0 and text[fstart - 1] == "\\")
+    ref_rejects = (not ok) or invalid_escape
+    # the real command line: single file, and the same file inside a directory next to a healthy one
+    home = os.path.join(sandbox, "home")
+    os.makedirs(os.path.join(home, ".config", "cminx"), exist_ok=True)
+    d = os.path.join(sandbox, "proj")
+    os.makedirs(d, exist_ok=True)
+    with open(os.path.join(d, "faulty.cmake"), "w", encoding="utf-8", newline="") as fh:
+        fh.write(text)
+    with open(os.path.join(d, "good.cmake"), "w") as fh:
+        fh.write("function(ok)\nendfunction()\n")
+    out1 = os.path.join(sandbox, "out1")
+    exc1, _ = naming.run_main(["-o", out1, os.path.join(d, "faulty.cmake")], sandbox, home)
+    page1 = os.path.exists(os.path.join(out1, "faulty.rst"))
+    out2 = os.path.join(sandbox, "out2")
+    exc2, _ = naming.run_main(["-o", out2, d], sandbox, home)
+    page2 = os.path.exists(os.path.join(out2, "faulty.rst"))
+    toks, errs = real_lex(text)
+    skipped = bool(errs)
+    obs = {"single_file": {"failed": exc1 is not None, "exc": exc1, "page_written": page1},
+           "directory": {"failed": exc2 is not None, "exc": exc2, "page_written": page2},
+           "lexer_skipped_characters": skipped}
+    lookalike = any(nm == "Unquoted_argument" and _re.match(r"^\[(=*)\[", text[a:b + 1])
+                    and not _re.match(r"^\[(=*)\[.*\]\1\]$", text[a:b + 1], _re.S) for nm, a, b in toks)
+    case = {"text": text, "fault": ftext, "at": fstart, "context": ctx, "cmake_parse_error": not ok, "invalid_escape": invalid_escape,
+            "bracket_lookalike_unquoted": bool(lookalike)}
+    model_notices = bool(beh["lexerrs"]) or not beh["parseok"]
+    drift = None
+    if model_notices != (exc1 is not None):
+        drift = {"model_notices": model_notices, "real_fails": exc1 is not None}
+    if ref_rejects:
+        def status_ok(exc):
+            return exc is not None and not exc.startswith("SystemExit: 0") and not exc.startswith("SystemExit: None")
+        if not status_ok(exc1) or page1 or not status_ok(exc2) or page2:
+            return {"verdict": "viol", "case": case, "expected": "error reported, non-zero status, no .rst for the faulty file",
+                    "observed": obs, "why": "an invalid file is accepted or documentation is written for it", "drift": drift}
+    if skipped and (page1 or page2):
+        return {"verdict": "viol", "case": case, "expected": "no documentation from a view of the file with skipped characters",
+                "observed": obs, "why": "the lexer skipped source characters and a page was still written", "drift": drift}
+    return {"verdict": "ok" if ref_rejects else "harmless", "drift": drift, "case": case}
+
+
+def _chunk06(args):
+    chunk, seed, base = args
+    import subprocess
+    out = []
+    for n, beh in chunk:
+        sb = os.path.join(base, "c%d_%d" % (os.getpid(), n))
+        try:
+            out.append((n, c06_one(beh, seed * 1000003 + n, sb)))
+        finally:
+            subprocess.run(["rm", "-rf", sb])
+    return out
+
+
+def replay_c06(run, behs, seed, limit=None):
+    import subprocess
+    behs = [b for b in behs if b["fault"]["pos"] != 0]
+    if limit and len(behs) > limit:
+        behs = random.Random(seed).sample(behs, limit)
+        run.exhaustive = False
+    base = tempfile.mkdtemp(prefix="verif_c06_", dir="/dev/shm" if os.path.isdir("/dev/shm") else None)
+    stats = run.notes.setdefault("fault_verdicts", {"ok": 0, "harmless": 0, "out": 0, "viol": 0})
+    try:
+        items = list(enumerate(behs))
+        chunks = [(items[i::lib.NCPU * 4], seed, base) for i in range(lib.NCPU * 4)]
+        chunks = [c for c in chunks if c[0]]
+        with ProcessPoolExecutor(max_workers=lib.NCPU, initializer=_init, initargs=(lib.CMINX_SRC,)) as ex:
+            for part in ex.map(_chunk06, chunks):
+                for n, r in part:
+                    beh = behs[n]
+                    run.behaviours += 1
+                    stats[r["verdict"]] += 1
+                    if r["verdict"] != "out":
+                        run.count("".join(beh["text"]) + "|%d" % beh["fault"]["pos"])
+                    if r["verdict"] == "viol":
+                        c = r["case"]
+                        c["features"] = {"fault": c["fault"], "context": c["context"], "cmake_parse_error": c["cmake_parse_error"],
+                                         "invalid_escape": c["invalid_escape"], "bracket_lookalike_unquoted": c["bracket_lookalike_unquoted"],
+                                         "lexer_error_only": bool(r["observed"]["lexer_skipped_characters"])}
+                        run.violation(c, r["expected"], r["observed"], r["why"])
+                    elif r.get("drift"):
+                        run.drifted({"text": r["case"]["text"], "drift": r["drift"]})
+        if behs:
+            b = behs[len(behs) // 2]
+            run.sample({"file_as_class_symbols": "".join(b["text"]), "fault": b["fault"]})
+    finally:
+        subprocess.run(["rm", "-rf", base])
